@@ -706,8 +706,11 @@ pub fn run(opts: &Opts) -> i32 {
     let quick = opts.tier == Tier::Quick;
 
     // ---- 1. exhaustive short strings (chunked by the first two bytes)
+    // (the interpreter stage samples 256 of the 65536 chunks, thinned further by VERIF_INNER)
+    let interp = std::env::var("VERIF_SANITIZER").as_deref() == Ok("miri");
     let max_len = 3usize;
-    pool::par_for(65536, None, |pre| {
+    pool::par_for(if interp { 256 } else { 65536 }, None, |pre| {
+        let pre = if interp { pre * 257 } else { pre };
         let c = Ctx { rep: &rep, tag: format!("short/{pre:04x}") };
         let b0 = (pre >> 8) as u8;
         let b1 = (pre & 0xff) as u8;
@@ -752,8 +755,10 @@ pub fn run(opts: &Opts) -> i32 {
         let _ = &mut rng;
         After::Continue
     });
-    for l in 1..=3u32 {
-        rep.distinct_many((0..(1u64 << (8 * l)).min(1 << 16)).map(|x| pool::mix(l as u64, x)));
+    if !interp {
+        for l in 1..=3u32 {
+            rep.distinct_many((0..(1u64 << (8 * l)).min(1 << 16)).map(|x| pool::mix(l as u64, x)));
+        }
     }
 
     // ---- 2. structure-aware mutations
